@@ -412,7 +412,7 @@ def run(run, tier):
     def note(d, key, size, what, case):
         if key not in d or size < d[key][0]: d[key] = (size, what, case)
     # ---- (a) the class
-    nobj = 150 if tier == 'quick' else 1500
+    nobj = 150 if tier == 'quick' else 4000
     lines = []; impls = []; owners = []; oracles = []
     cases = [dict(c, src='corpus') for c in C.load_corpus('C10') if c.get('kind') == 'obj'] + [gen_obj(rng) for _ in range(nobj)]
     for c in cases:
@@ -437,7 +437,7 @@ def run(run, tier):
         elif len(samples) < 2 and line.startswith('SUM') and im[0] == 'OK' and len(im[1]) > 3:
             samples.append({'summary': {'histories': c['hist'], 'possible_statuses': c['ps'], 'rows': [(str(t), cs) for t, cs in im[1]]}})
     # ---- transform
-    ntr = 150 if tier == 'quick' else 1500
+    ntr = 150 if tier == 'quick' else 6000
     tcases = [gen_tr(rng) for _ in range(ntr)]
     tl = []; ti = []
     for c in tcases:
@@ -448,7 +448,7 @@ def run(run, tier):
         if ma != im:
             note(mism, '_transform_to_node_history_', len(line), '_transform_to_node_history_: model %r, implementation %r' % (ma, im), c)
     # ---- (b) the simulators in both return modes
-    nsim = 200 if tier == 'quick' else 3000
+    nsim = 200 if tier == 'quick' else 12000
     scases = [dict(c, src='corpus') for c in C.load_corpus('C10') if c.get('kind') == 'sim'] + [gen_sim(rng, k) for k in range(nsim)]
     chk = []; chk_owner = []
     for c in scases:
